@@ -57,7 +57,7 @@ def main(drv):
         print("engine build failed")
         return 2
     # 1. translator validation
-    for pkg, entries in (("v2", ["VerifSelfCorpus", "VerifSelfCodec"]),):
+    for pkg, entries in (("v2", ["VerifSelfCorpus", "VerifSelfCodec"]), ("lib", ["VerifSelfCorpusLib"])):
         res, err = drv.run_engine(pkg, entries, {}, set(), 1, 100000, 1800)
         if err:
             bad.append("corpus run: " + err)
